@@ -87,7 +87,7 @@ Proof.
   replace (zskipn (ty_size t) b) with (enc_types r) by (unfold b; symmetry; apply zskipn_app_at; auto).
   rewrite IH by (auto; cbn [length] in F; lia).
   do 2 f_equal. destruct t as [h1 h2 toks]. cbn [ty_h1 ty_h2 ty_toks] in *. f_equal.
-  - unfold b, enc_type. cbn [ty_h1]. apply sub_app_here. auto.
+  - unfold b, enc_type. cbn [ty_h1]. rewrite <- !app_assoc. apply sub_app_here. auto.
   - unfold b, enc_type. cbn [ty_h1 ty_h2]. rewrite <- !app_assoc. rewrite (app_assoc h1).
     apply sub_at; [rewrite zlen_app, le2; lia|auto].
   - replace (sub 16 (ty_size (mkType h1 h2 toks) - 16) b) with (enc_toks toks ++ []).
@@ -96,9 +96,7 @@ Proof.
       * unfold ty_size. cbn [ty_toks]. replace (16 + 8 * zlen toks - 16) with (zlen toks * 8) by lia.
         rewrite Z.div_mul by lia. unfold zlen. lia.
     + rewrite app_nil_r. unfold b. rewrite enc_type_thdr, <- app_assoc. cbn [ty_toks]. symmetry.
-      rewrite <- (app_nil_l (thdr _ ++ _)). apply sub_at.
-      * cbn [app]. rewrite <- Lh. rewrite app_nil_l. reflexivity.
-      * rewrite zlen_enc_toks. unfold ty_size. cbn [ty_toks]. lia.
+      apply sub_at; [exact Lh|rewrite zlen_enc_toks; unfold ty_size; cbn [ty_toks]; lia].
 Qed.
 
 Lemma dec_groups_enc fuel G : forallb wf_group G = true -> (length G < fuel)%nat ->
@@ -185,4 +183,187 @@ Proof.
     apply sub_at; [rewrite zlen_app, le4; lia|auto].
   - rewrite enc_blob_bhdr. cbn [bl_groups bl_slack]. rewrite app_assoc. apply zskipn_app_at.
     rewrite zlen_app, zlen_bhdr, zlen_enc_groups by auto. reflexivity.
+Qed.
+
+(* ---- encoding a decoding ---- *)
+
+Lemma sub_glue (b : bytes) a l1 c l2 : c = a + l1 -> 0 <= a -> 0 <= l1 -> 0 <= l2 ->
+  sub a l1 b ++ sub c l2 b = sub a (l1 + l2) b.
+Proof. intros -> H0 H1 H2. unfold sub. apply window_glue; auto. Qed.
+
+Lemma sub_glue_r (b : bytes) a l1 c l2 R : c = a + l1 -> 0 <= a -> 0 <= l1 -> 0 <= l2 ->
+  sub a l1 b ++ sub c l2 b ++ R = sub a (l1 + l2) b ++ R.
+Proof. intros. rewrite app_assoc. f_equal. apply sub_glue; auto. Qed.
+
+Lemma sub_zskipn (b : bytes) a l c : c = a + l -> 0 <= a -> 0 <= l -> sub a l b ++ zskipn c b = zskipn a b.
+Proof.
+  intros -> H0 H1. unfold sub. rewrite <- (zfirstn_zskipn l (zskipn a b)) at 2. f_equal.
+  rewrite zskipn_zskipn by lia. f_equal. lia.
+Qed.
+
+Lemma enc_toks_dec n : forall x, bytes_ok x = true -> zlen x = 8 * Z.of_nat n ->
+  enc_toks (dec_toks n x) = x /\ forallb wf_pair (dec_toks n x) = true /\ length (dec_toks n x) = n.
+Proof.
+  induction n as [|n IH]; intros x OK L.
+  - destruct x; [repeat split|rewrite zlen_cons in L; pose proof (zlen_nonneg x); lia].
+  - cbn [dec_toks]. destruct (IH (zskipn 8 x)) as (E & W & Ln).
+    + apply bytes_ok_skipn; auto.
+    + rewrite zlen_zskipn by lia. lia.
+    + rewrite enc_toks_cons, E. unfold enc_pair. cbn [fst snd forallb length]. rewrite W, Ln. repeat split.
+      * rewrite !le_enc_rd by (auto; simpl; lia). rewrite <- app_assoc.
+        rewrite (sub_glue_r x 0 4 4 4) by lia. change (sub 0 (4 + 4) x ++ zskipn 8 x = x).
+        rewrite (sub_zskipn x 0 8 8) by lia. reflexivity.
+      * pose proof (rd_bound x 0 4 OK ltac:(lia) ltac:(simpl; lia)).
+        pose proof (rd_bound x 4 4 OK ltac:(lia) ltac:(simpl; lia)).
+        unfold wf_pair. cbn [fst snd]. pw. lia.
+Qed.
+
+Lemma enc_types_dec fuel : forall b tys, bytes_ok b = true -> dec_types fuel b = Some tys ->
+  enc_types tys = b /\ forallb wf_type tys = true.
+Proof.
+  induction fuel as [|f IH]; intros b tys OK D; [discriminate|].
+  cbn [dec_types] in D. destruct b as [|x0 b0] eqn:Eb.
+  { injection D as <-. split; reflexivity. }
+  rewrite <- Eb in *. clear Eb x0 b0.
+  destruct (zlen b <? 16) eqn:E16; [discriminate|].
+  set (sz := rd 4 2 b) in *.
+  destruct ((sz <? 16) || (sz >? zlen b) || negb ((sz - 16) mod 8 =? 0)) eqn:EC; [discriminate|].
+  destruct (dec_types f (zskipn sz b)) as [r|] eqn:DR; [|discriminate].
+  injection D as <-.
+  destruct (IH _ _ (bytes_ok_skipn _ _ OK) DR) as (Er & Wr).
+  pose proof (rd_bound b 4 2 OK ltac:(lia) ltac:(simpl; lia)) as Bsz. fold sz in Bsz.
+  pose proof (Z.div_mod (sz - 16) 8 ltac:(lia)) as DM.
+  assert (M0 : (sz - 16) mod 8 = 0) by lia.
+  set (n := Z.to_nat ((sz - 16) / 8)).
+  assert (En : sz - 16 = 8 * Z.of_nat n) by (unfold n; lia).
+  set (x := sub 16 (sz - 16) b).
+  assert (Lx : zlen x = 8 * Z.of_nat n) by (unfold x; rewrite zlen_sub; lia).
+  destruct (enc_toks_dec n x (bytes_ok_sub _ _ _ OK) Lx) as (Ex & Wx & Lnx).
+  set (t := mkType (sub 0 4 b) (sub 6 10 b) (dec_toks n x)).
+  assert (St : ty_size t = sz).
+  { unfold ty_size, t. cbn [ty_toks]. unfold zlen. rewrite Lnx. lia. }
+  split.
+  - rewrite enc_types_cons, Er. unfold enc_type. rewrite St. unfold t. cbn [ty_h1 ty_h2 ty_toks]. rewrite Ex.
+    unfold sz. rewrite le_enc_rd by (auto; simpl; lia). fold sz. unfold x. rewrite <- !app_assoc.
+    change (Z.of_nat 2) with 2.
+    rewrite (sub_glue_r b 0 4 4 2) by lia.
+    rewrite (sub_glue_r b 0 (4 + 2) 6 10) by lia.
+    rewrite (sub_glue_r b 0 (4 + 2 + 10) 16 (sz - 16)) by lia.
+    rewrite (sub_zskipn b 0 (4 + 2 + 10 + (sz - 16)) sz) by lia. reflexivity.
+  - cbn [forallb]. rewrite Wr, andb_true_r. unfold wf_type. rewrite St. unfold t. cbn [ty_h1 ty_h2 ty_toks].
+    rewrite !zlen_sub by lia. rewrite !bytes_ok_sub by auto. rewrite Wx. cbn [Z.eqb Pos.eqb andb]. pw. lia.
+Qed.
+
+Lemma enc_groups_dec fuel : forall b G, bytes_ok b = true -> dec_groups fuel b = Some G ->
+  enc_groups G = b /\ forallb wf_group G = true.
+Proof.
+  induction fuel as [|f IH]; intros b G OK D; [discriminate|].
+  cbn [dec_groups] in D. destruct b as [|x0 b0] eqn:Eb.
+  { injection D as <-. split; reflexivity. }
+  rewrite <- Eb in *. clear Eb x0 b0.
+  destruct (zlen b <? 16) eqn:E16; [discriminate|].
+  set (sz := rd 12 4 b) in *.
+  destruct ((sz <? 16) || (sz >? zlen b)) eqn:EC; [discriminate|].
+  pose proof (rd_bound b 12 4 OK ltac:(lia) ltac:(simpl; lia)) as Bsz. fold sz in Bsz.
+  destruct (rd 4 2 b =? 12288) eqn:EID.
+  - set (soh := rd 6 2 b) in *.
+    destruct ((soh <? 16) || (soh >? sz)) eqn:ES; [discriminate|].
+    destruct (dec_types (S (length b)) (sub soh (sz - soh) b)) as [tys|] eqn:DT; [|discriminate].
+    destruct (dec_groups f (zskipn sz b)) as [r|] eqn:DR; [|discriminate].
+    injection D as <-.
+    destruct (IH _ _ (bytes_ok_skipn _ _ OK) DR) as (Er & Wr).
+    destruct (enc_types_dec _ _ _ (bytes_ok_sub _ _ _ OK) DT) as (Et & Wt).
+    pose proof (rd_bound b 6 2 OK ltac:(lia) ltac:(simpl; lia)) as Bsoh. fold soh in Bsoh.
+    assert (Lt : types_size tys = sz - soh).
+    { rewrite <- zlen_enc_types by auto. rewrite Et. apply zlen_sub; lia. }
+    set (g := TokGroup (sub 0 4 b) (sub 8 4 b) (sub 16 (soh - 16) b) tys).
+    assert (Sg : group_size g = sz).
+    { unfold g. cbn [group_size]. rewrite zlen_sub by lia. lia. }
+    split.
+    + rewrite enc_groups_cons, Er. unfold g at 1. cbn [enc_group]. fold g. rewrite Sg.
+      rewrite zlen_sub by lia. replace (16 + (soh - 16)) with soh by lia.
+      replace 12288 with (rd 4 2 b) by lia. unfold soh at 1, sz at 1.
+      rewrite !le_enc_rd by (auto; simpl; lia). rewrite Et. rewrite <- !app_assoc.
+      change (Z.of_nat 2) with 2. change (Z.of_nat 4) with 4.
+      rewrite (sub_glue_r b 0 4 4 2) by lia.
+      rewrite (sub_glue_r b 0 (4 + 2) 6 2) by lia.
+      rewrite (sub_glue_r b 0 (4 + 2 + 2) 8 4) by lia.
+      rewrite (sub_glue_r b 0 (4 + 2 + 2 + 4) 12 4) by lia.
+      rewrite (sub_glue_r b 0 (4 + 2 + 2 + 4 + 4) 16 (soh - 16)) by lia.
+      rewrite (sub_glue_r b 0 (4 + 2 + 2 + 4 + 4 + (soh - 16)) soh (sz - soh)) by lia.
+      rewrite (sub_zskipn b 0 _ sz) by lia. reflexivity.
+    + cbn [forallb]. rewrite Wr, andb_true_r. unfold wf_group. fold g. rewrite Sg. unfold g.
+      rewrite !zlen_sub by lia. rewrite !bytes_ok_sub by auto. rewrite Wt. cbn [Z.eqb Pos.eqb andb]. pw. lia.
+  - destruct (dec_groups f (zskipn sz b)) as [r|] eqn:DR; [|discriminate].
+    injection D as <-.
+    destruct (IH _ _ (bytes_ok_skipn _ _ OK) DR) as (Er & Wr).
+    set (g := Foreign (sub 0 12 b) (sub 16 (sz - 16) b)).
+    assert (Sg : group_size g = sz).
+    { unfold g. cbn [group_size]. rewrite zlen_sub by lia. lia. }
+    split.
+    + rewrite enc_groups_cons, Er. unfold g at 1. cbn [enc_group]. fold g. rewrite Sg.
+      unfold sz at 1. rewrite le_enc_rd by (auto; simpl; lia). rewrite <- !app_assoc.
+      change (Z.of_nat 4) with 4.
+      rewrite (sub_glue_r b 0 12 12 4) by lia.
+      rewrite (sub_glue_r b 0 (12 + 4) 16 (sz - 16)) by lia.
+      rewrite (sub_zskipn b 0 _ sz) by lia. reflexivity.
+    + cbn [forallb]. rewrite Wr, andb_true_r. unfold wf_group. fold g. rewrite Sg. unfold g.
+      rewrite !zlen_sub by lia. rewrite !bytes_ok_sub by auto.
+      replace (rd 4 2 (sub 0 12 b)) with (rd 4 2 b).
+      2:{ unfold rd. f_equal. unfold sub. change (zskipn 0 b) with b.
+          rewrite <- (zfirstn_zskipn 12 b) at 1. symmetry.
+          pose proof (sub_app_l (zfirstn 12 b) (zskipn 12 b) 4 (Z.of_nat 2)) as X. unfold sub in X. apply X; try (simpl; lia).
+          rewrite zlen_zfirstn; simpl; lia. }
+      rewrite EID. cbn [Z.eqb Pos.eqb andb negb]. pw. lia.
+Qed.
+
+Theorem enc_blob_dec b s : dec_blob b = Some s -> enc_blob s = b /\ wf_blob s = true.
+Proof.
+  unfold dec_blob. intros D.
+  destruct (bytes_ok b) eqn:OK; [|discriminate]. cbn [negb orb] in D.
+  destruct (zlen b <? 128) eqn:E128; [discriminate|]. cbn [orb] in D.
+  destruct (zlen b <? 2 ^ 32) eqn:E32; [|discriminate]. cbn [negb] in D.
+  destruct (rd 0 4 b =? apcb_sig_v2) eqn:S1; [|discriminate].
+  destruct (rd 32 4 b =? apcb_sig_v3) eqn:S2; [|discriminate].
+  destruct (rd 124 4 b =? apcb_sig_end) eqn:S3; [|discriminate]. cbn [andb negb] in D.
+  set (size := rd 8 4 b) in *.
+  destruct ((size <? 128) || (size >? zlen b)) eqn:ES; [discriminate|].
+  destruct (dec_groups (S (length b)) (sub 128 (size - 128) b)) as [G|] eqn:DG; [|discriminate].
+  injection D as <-.
+  destruct (enc_groups_dec _ _ _ (bytes_ok_sub _ _ _ OK) DG) as (EG & WG).
+  assert (LG : groups_size G = size - 128).
+  { rewrite <- zlen_enc_groups by auto. rewrite EG. apply zlen_sub; lia. }
+  set (s := mkBlob (sub 0 8 b) (sub 12 116 b) G (zskipn size b)).
+  assert (Ss : blob_size s = size) by (unfold blob_size, s; cbn [bl_groups]; lia).
+  assert (E : enc_blob s = b).
+  { unfold enc_blob. rewrite Ss. unfold s. cbn [bl_h1 bl_h2 bl_groups bl_slack]. rewrite EG.
+    unfold size at 1. rewrite le_enc_rd by (auto; simpl; lia). change (Z.of_nat 4) with 4.
+    rewrite (sub_glue_r b 0 8 8 4) by lia.
+    rewrite (sub_glue_r b 0 (8 + 4) 12 116) by lia.
+    rewrite (sub_glue_r b 0 (8 + 4 + 116) 128 (size - 128)) by lia.
+    rewrite (sub_zskipn b 0 _ size) by lia. reflexivity. }
+  split; [exact E|].
+  unfold wf_blob. rewrite E. unfold s. cbn [bl_h1 bl_h2 bl_groups bl_slack].
+  rewrite !zlen_sub by lia. rewrite !bytes_ok_sub by auto. rewrite bytes_ok_skipn by auto. rewrite WG, E32.
+  replace (rd 0 4 (sub 0 8 b)) with (rd 0 4 b).
+  2:{ unfold rd. f_equal. unfold sub. change (zskipn 0 b) with b.
+      rewrite <- (zfirstn_zskipn 8 b) at 1. symmetry.
+      pose proof (sub_app_l (zfirstn 8 b) (zskipn 8 b) 0 (Z.of_nat 4)) as X. unfold sub in X. apply X; try (simpl; lia).
+      rewrite zlen_zfirstn; simpl; lia. }
+  replace (rd 20 4 (sub 12 116 b)) with (rd 32 4 b).
+  2:{ unfold rd, sub. f_equal. symmetry.
+      rewrite <- (zfirstn_zskipn 116 (zskipn 12 b)) at 2.
+      pose proof (sub_app_l (zfirstn 116 (zskipn 12 b)) (zskipn 116 (zskipn 12 b)) 20 (Z.of_nat 4)) as X.
+      unfold sub in X. rewrite zskipn_zskipn by lia. simpl Z.add.
+      assert (Y : zskipn 20 (zskipn 12 b) = zskipn 32 b) by (rewrite zskipn_zskipn by lia; reflexivity).
+      rewrite <- Y. symmetry. rewrite <- (zfirstn_zskipn 116 (zskipn 12 b)) at 1.
+      apply X; try (simpl; lia). rewrite zlen_zfirstn; simpl; try lia. rewrite zlen_zskipn; lia. }
+  replace (rd 112 4 (sub 12 116 b)) with (rd 124 4 b).
+  2:{ unfold rd, sub. f_equal.
+      pose proof (sub_app_l (zfirstn 116 (zskipn 12 b)) (zskipn 116 (zskipn 12 b)) 112 (Z.of_nat 4)) as X.
+      unfold sub in X.
+      assert (Y : zskipn 112 (zskipn 12 b) = zskipn 124 b) by (rewrite zskipn_zskipn by lia; reflexivity).
+      rewrite <- Y. rewrite <- (zfirstn_zskipn 116 (zskipn 12 b)) at 1.
+      apply X; try (simpl; lia). rewrite zlen_zfirstn; simpl; try lia. rewrite zlen_zskipn; lia. }
+  rewrite S1, S2, S3. reflexivity.
 Qed.
